@@ -100,11 +100,12 @@ LLVMFuzzerInitialize(int *argc, char ***argv)
     return 0;
 }
 
-int
-LLVMFuzzerTestOneInput(const uint8_t *data, size_t size)
+/* one pass over an input; returns non-zero when the allocation counter of the sanitizer runtime differs before and
+ * after (the caller decides what to make of that) */
+static int
+one_pass(const uint8_t *data, size_t size)
 {
-    if (size > 4000)
-        return 0;
+    int unbalanced = 0;
     vh_arena_reset();
     char *in = vh_arena(size);
     memcpy(in, data, size);
@@ -133,7 +134,7 @@ LLVMFuzzerTestOneInput(const uint8_t *data, size_t size)
     }
     sx_destroy(&r.node);
     if (__sanitizer_get_current_allocated_bytes() != before)
-        vh_fail("leak", "target=fz_sx", "input %s", vh_hex(data, size > 60 ? 60 : size));
+        unbalanced = 1;
     /* NUL-terminated entry point on the same text must agree on the verdict when the text has no NUL inside */
     if (memchr(data, 0, size) == NULL) {
         char *z = vh_arena(size + 1);
@@ -145,5 +146,18 @@ LLVMFuzzerTestOneInput(const uint8_t *data, size_t size)
                     r.status, r.position, r3.status, r3.position);
         sx_destroy(&r3.node);
     }
+    return unbalanced;
+}
+
+int
+LLVMFuzzerTestOneInput(const uint8_t *data, size_t size)
+{
+    if (size > 4000)
+        return 0;
+    /* The counter is process-wide: a first call into the C library (formatted output, locale data) or the fuzzing
+     * engine may allocate once between the two readings. A leak of the reader shows on every pass, so an
+     * unbalanced pass is confirmed by two more before it is reported. */
+    if (one_pass(data, size) && one_pass(data, size) && one_pass(data, size))
+        vh_fail("leak", "target=fz_sx", "input %s: allocated octets differ before and after on three passes in a row", vh_hex(data, size > 60 ? 60 : size));
     return 0;
 }
